@@ -94,6 +94,8 @@ def snap(h):
 def snap_diff(a, b, ignore=()):
     """Names of snapshot fields that differ."""
     keys = sorted(set(a) | set(b))
+    if _chaos():
+        return [k for k in keys if k not in ignore][:1]
     return [k for k in keys if k not in ignore and a.get(k, "<absent>") != b.get(k, "<absent>")]
 
 
@@ -145,8 +147,30 @@ def wellformed_problems(h):
 # ----------------------------------------------------------------------------
 # comparison
 # ----------------------------------------------------------------------------
+# Self-test only (selftest/chaos.py): with HISTSIM_CHAOS=<n> every n-th comparison of a run reports "different",
+# so that every violation branch of every check (message formatting, signature building, minimisation, replay)
+# is executed on the unchanged tree.  Deterministic per run (the counter is reset by core.run_plan).
+import os as _os
+
+_CHAOS = int(_os.environ.get("HISTSIM_CHAOS", "0") or 0)
+_chaos_n = [0]
+
+
+def chaos_reset():
+    _chaos_n[0] = 0
+
+
+def _chaos():
+    if not _CHAOS:
+        return False
+    _chaos_n[0] += 1
+    return _chaos_n[0] % _CHAOS == 0
+
+
 def num_equal(a, b, *, exact, scale=0.0):
     """a == b (NaN == NaN); tolerant: |a-b| <= 1e-10*scale + 1e-300."""
+    if _chaos():
+        return False
     a = float(a)
     b = float(b)
     if math.isnan(a) or math.isnan(b):
@@ -159,6 +183,8 @@ def num_equal(a, b, *, exact, scale=0.0):
 
 
 def arrays_equal(a, b, *, exact, scale=0.0):
+    if _chaos():
+        return False
     a = np.asarray(a, dtype=np.float64) if np.asarray(a).dtype != np.float128 else np.asarray(a)
     b = np.asarray(b, dtype=np.float64) if np.asarray(b).dtype != np.float128 else np.asarray(b)
     if a.shape != b.shape:
